@@ -15,6 +15,7 @@ def dispatch : String → Option (String → String)
   | "C11" => some EnumGen.runLine
   | "C12" => some Write.runLine
   | "C17" => some Config.runLine
+  | "C13" => some Cfg.runLine
   | "C16" => some (fun l => if l.startsWith "(utf8" || l.startsWith "(mask2" then Utf8.runLine l else Slices.runLine l)
   | _ => none
 
